@@ -72,6 +72,8 @@ fn node_slot(expression: &Expression) -> usize {
                 SLOTS
             }
         }
+        // the right operand of the `right_is_call` scenarios is a real call `b()`
+        Expression::Call(_) => 1,
         _ => SLOTS,
     }
 }
@@ -97,6 +99,7 @@ pub fn evaluate_stub(evaluator: &Evaluator, expression: &Expression) -> LuaValue
 pub fn has_side_effects_stub(evaluator: &Evaluator, expression: &Expression) -> bool {
     match expression {
         Expression::Binary(_) | Expression::Unary(_) | Expression::If(_) => unsafe { NODE_EFFECTS_ANSWER },
+        Expression::Call(_) => true,
         _ => crate::lua::has_side_effects_stub(evaluator, expression),
     }
 }
@@ -124,9 +127,12 @@ pub fn to_expression_stub(value: LuaValue) -> Option<Expression> {
 /// `<Expression as Clone>::clone` restricted to the identifier leaves this harness holds.
 #[cfg(kani)]
 pub fn clone_stub(expression: &Expression) -> Expression {
-    match node_slot(expression) {
-        0 => Expression::identifier("a"),
-        _ => Expression::identifier("b"),
+    match expression {
+        Expression::Call(_) => FunctionCall::from_name("b").into(),
+        _ => match node_slot(expression) {
+            0 => Expression::identifier("a"),
+            _ => Expression::identifier("b"),
+        },
     }
 }
 
@@ -155,10 +161,14 @@ fn scenario<S: Source>(
     left_effects_answer: bool,
     node_effects_answer: bool,
     node_kind: u8,
+    right_is_call: bool,
 ) {
     let op: u8 = if is_or { 1 } else { 0 };
     let mut left = any_shaped(s);
     let right = any_shaped(s);
+    // a constant of the scenario: the right operand is a real call expression (so that code
+    // inspecting the operand's variant - e.g. to parenthesise a call - sees one) or not
+    s.assume((right.shape == 1) == right_is_call);
     let number = s.any_f64();
     // the left operand as the scenario fixes it
     left.child.operand.known = left_kind != 7;
@@ -207,6 +217,15 @@ fn scenario<S: Source>(
         FOLDED_KIND = 7;
     }
     let left_expression = shaped_expression(0, left);
+    // (the branch is on the scenario constant, so the variant built is concrete on each path)
+    #[cfg(kani)]
+    let right_expression: Expression = if right_is_call {
+        core::mem::forget(shaped_expression(1, right));
+        FunctionCall::from_name("b").into()
+    } else {
+        shaped_expression(1, right)
+    };
+    #[cfg(not(kani))]
     let right_expression = shaped_expression(1, right);
     #[cfg(not(kani))]
     let (left_copy, right_copy) = (left_expression.clone(), right_expression.clone());
@@ -214,21 +233,40 @@ fn scenario<S: Source>(
         BinaryExpression::new(binary_operator(op), left_expression, right_expression).into();
     let replacement = hooks::compute_expression_replace_with(&node);
 
+    let mut parenthesised = false;
     #[cfg(kani)]
     let (what, folded) = match &replacement {
         None => (Replacement::None, V::Nil),
         Some(Expression::Identifier(identifier)) if identifier.get_name().len() == 6 => {
             (Replacement::Literal, unsafe { v_from(FOLDED_KIND, FOLDED_NUMBER) })
         }
-        Some(expression) => match node_slot(expression) {
-            0 => (Replacement::Left, V::Nil),
-            1 => (Replacement::Right, V::Nil),
-            _ => (Replacement::Other, V::Nil),
-        },
+        Some(expression) => {
+            // `(operand)`: a parenthesised operand yields exactly one value
+            let inner = match expression {
+                Expression::Parenthese(parenthese) => {
+                    parenthesised = true;
+                    parenthese.inner_expression()
+                }
+                other => other,
+            };
+            match node_slot(inner) {
+                0 => (Replacement::Left, V::Nil),
+                1 => (Replacement::Right, V::Nil),
+                _ => (Replacement::Other, V::Nil),
+            }
+        }
     };
     #[cfg(not(kani))]
     let (what, folded) = match &replacement {
         None => (Replacement::None, V::Nil),
+        Some(Expression::Parenthese(parenthese)) if *parenthese.inner_expression() == left_copy && left_copy != right_copy => {
+            parenthesised = true;
+            (Replacement::Left, V::Nil)
+        }
+        Some(Expression::Parenthese(parenthese)) if *parenthese.inner_expression() == right_copy && left_copy != right_copy => {
+            parenthesised = true;
+            (Replacement::Right, V::Nil)
+        }
         Some(expression) if *expression == left_copy && left_copy != right_copy => (Replacement::Left, V::Nil),
         Some(expression) if *expression == right_copy && left_copy != right_copy => (Replacement::Right, V::Nil),
         Some(expression) => match Evaluator::default().evaluate(expression) {
@@ -255,7 +293,7 @@ fn scenario<S: Source>(
         }
         Replacement::Left => {
             claim!(s, selects_left, "and/or is replaced by its left operand only when Lua selects the left operand");
-            if left.shape == 0 {
+            if left.shape == 0 || parenthesised {
                 claim!(s, true, "left operand kept");
             } else {
                 claim!(s, false, "and/or (always exactly one value) is not replaced by a bare call or `...` operand, which may yield any number of values [left operand]");
@@ -264,7 +302,7 @@ fn scenario<S: Source>(
         Replacement::Right => {
             claim!(s, !selects_left, "and/or is replaced by its right operand only when Lua selects the right operand");
             claim!(s, !l.effects, "and/or is replaced by its right operand only when dropping the left operand loses no call");
-            if right.shape != 0 {
+            if right.shape != 0 && !parenthesised {
                 claim!(s, false, "and/or (always exactly one value) is not replaced by a bare call or `...` operand, which may yield any number of values [right operand]");
             }
         }
@@ -370,11 +408,11 @@ macro_rules! compute_proof {
 }
 
 macro_rules! scenarios {
-    ($s:expr, $index:expr, $counter:ident; $( ($or:expr, $lk:expr, $le:expr, $ne:expr, $nk:expr) ),* $(,)?) => {{
+    ($s:expr, $index:expr, $counter:ident; $( ($or:expr, $lk:expr, $le:expr, $ne:expr, $nk:expr, $rc:expr) ),* $(,)?) => {{
         let mut $counter: u16 = 0;
         $(
             if $index == $counter {
-                scenario($s, $or, $lk, $le, $ne, $nk);
+                scenario($s, $or, $lk, $le, $ne, $nk, $rc);
             }
             $counter += 1;
         )*
@@ -494,6 +532,118 @@ pub fn compute_and_or_g15<S: Source>(s: &mut S) {
     let _count: u16 = include!("c01_scenarios_g15.in");
 }
 compute_proof!(c01_compute_and_or_g15, compute_and_or_g15);
+
+/// H-C01-compute-step, scenario group 16 (see `c01_scenarios_g16.in`).
+pub fn compute_and_or_g16<S: Source>(s: &mut S) {
+    let index = s.any_u16();
+    let _count: u16 = include!("c01_scenarios_g16.in");
+}
+compute_proof!(c01_compute_and_or_g16, compute_and_or_g16);
+
+/// H-C01-compute-step, scenario group 17 (see `c01_scenarios_g17.in`).
+pub fn compute_and_or_g17<S: Source>(s: &mut S) {
+    let index = s.any_u16();
+    let _count: u16 = include!("c01_scenarios_g17.in");
+}
+compute_proof!(c01_compute_and_or_g17, compute_and_or_g17);
+
+/// H-C01-compute-step, scenario group 18 (see `c01_scenarios_g18.in`).
+pub fn compute_and_or_g18<S: Source>(s: &mut S) {
+    let index = s.any_u16();
+    let _count: u16 = include!("c01_scenarios_g18.in");
+}
+compute_proof!(c01_compute_and_or_g18, compute_and_or_g18);
+
+/// H-C01-compute-step, scenario group 19 (see `c01_scenarios_g19.in`).
+pub fn compute_and_or_g19<S: Source>(s: &mut S) {
+    let index = s.any_u16();
+    let _count: u16 = include!("c01_scenarios_g19.in");
+}
+compute_proof!(c01_compute_and_or_g19, compute_and_or_g19);
+
+/// H-C01-compute-step, scenario group 20 (see `c01_scenarios_g20.in`).
+pub fn compute_and_or_g20<S: Source>(s: &mut S) {
+    let index = s.any_u16();
+    let _count: u16 = include!("c01_scenarios_g20.in");
+}
+compute_proof!(c01_compute_and_or_g20, compute_and_or_g20);
+
+/// H-C01-compute-step, scenario group 21 (see `c01_scenarios_g21.in`).
+pub fn compute_and_or_g21<S: Source>(s: &mut S) {
+    let index = s.any_u16();
+    let _count: u16 = include!("c01_scenarios_g21.in");
+}
+compute_proof!(c01_compute_and_or_g21, compute_and_or_g21);
+
+/// H-C01-compute-step, scenario group 22 (see `c01_scenarios_g22.in`).
+pub fn compute_and_or_g22<S: Source>(s: &mut S) {
+    let index = s.any_u16();
+    let _count: u16 = include!("c01_scenarios_g22.in");
+}
+compute_proof!(c01_compute_and_or_g22, compute_and_or_g22);
+
+/// H-C01-compute-step, scenario group 23 (see `c01_scenarios_g23.in`).
+pub fn compute_and_or_g23<S: Source>(s: &mut S) {
+    let index = s.any_u16();
+    let _count: u16 = include!("c01_scenarios_g23.in");
+}
+compute_proof!(c01_compute_and_or_g23, compute_and_or_g23);
+
+/// H-C01-compute-step, scenario group 24 (see `c01_scenarios_g24.in`).
+pub fn compute_and_or_g24<S: Source>(s: &mut S) {
+    let index = s.any_u16();
+    let _count: u16 = include!("c01_scenarios_g24.in");
+}
+compute_proof!(c01_compute_and_or_g24, compute_and_or_g24);
+
+/// H-C01-compute-step, scenario group 25 (see `c01_scenarios_g25.in`).
+pub fn compute_and_or_g25<S: Source>(s: &mut S) {
+    let index = s.any_u16();
+    let _count: u16 = include!("c01_scenarios_g25.in");
+}
+compute_proof!(c01_compute_and_or_g25, compute_and_or_g25);
+
+/// H-C01-compute-step, scenario group 26 (see `c01_scenarios_g26.in`).
+pub fn compute_and_or_g26<S: Source>(s: &mut S) {
+    let index = s.any_u16();
+    let _count: u16 = include!("c01_scenarios_g26.in");
+}
+compute_proof!(c01_compute_and_or_g26, compute_and_or_g26);
+
+/// H-C01-compute-step, scenario group 27 (see `c01_scenarios_g27.in`).
+pub fn compute_and_or_g27<S: Source>(s: &mut S) {
+    let index = s.any_u16();
+    let _count: u16 = include!("c01_scenarios_g27.in");
+}
+compute_proof!(c01_compute_and_or_g27, compute_and_or_g27);
+
+/// H-C01-compute-step, scenario group 28 (see `c01_scenarios_g28.in`).
+pub fn compute_and_or_g28<S: Source>(s: &mut S) {
+    let index = s.any_u16();
+    let _count: u16 = include!("c01_scenarios_g28.in");
+}
+compute_proof!(c01_compute_and_or_g28, compute_and_or_g28);
+
+/// H-C01-compute-step, scenario group 29 (see `c01_scenarios_g29.in`).
+pub fn compute_and_or_g29<S: Source>(s: &mut S) {
+    let index = s.any_u16();
+    let _count: u16 = include!("c01_scenarios_g29.in");
+}
+compute_proof!(c01_compute_and_or_g29, compute_and_or_g29);
+
+/// H-C01-compute-step, scenario group 30 (see `c01_scenarios_g30.in`).
+pub fn compute_and_or_g30<S: Source>(s: &mut S) {
+    let index = s.any_u16();
+    let _count: u16 = include!("c01_scenarios_g30.in");
+}
+compute_proof!(c01_compute_and_or_g30, compute_and_or_g30);
+
+/// H-C01-compute-step, scenario group 31 (see `c01_scenarios_g31.in`).
+pub fn compute_and_or_g31<S: Source>(s: &mut S) {
+    let index = s.any_u16();
+    let _count: u16 = include!("c01_scenarios_g31.in");
+}
+compute_proof!(c01_compute_and_or_g31, compute_and_or_g31);
 
 compute_proof!(c01_compute_unary, compute_unary);
 compute_proof!(c01_compute_if, compute_if);
